@@ -16,9 +16,11 @@ pub mod s1 {
       r2(((*v0) + 1)) <-- r1(v0, v1) if ((*v0) != 6) let v2 = ((*v1) + 1), if ((*v0) < 6);
       r3(0, v0) <-- let v0 = 0, r1(0, v0) if (v0 <= 4) let v1 = (v0 + 1);
       r4((v0 + 1), 0) <-- if let Some(v0) = None::<i64>, r2(v0) if (v0 <= 1), r3(v0, v1), if ((*v1) != 1), if (v0 < 6);
-      r2(v0) <-- r0(v0, v1) if ((*v0) < 5), r0(v1, v2) if ((*v2) != (*v1));
-      r3(v0, v0) <-- for v0 in [2, 2, 4];
-      r4(v1, v1) <-- r2(v0), r3(v1, 1);
+      r4(v0, v1) <-- let v9 = 0, r0(v0, v1), r0(v1, v9);
+      r4(v0, v0) <-- for v0 in [2, 2, 4], r0(v0, v0);
+      r3(v3, ((*v0) + 1)) <-- r0(v0, v1), r0(v2, v3), r2(v3), if ((*v0) < 6);
+      r2(0) <-- let v0 = 0, r1(v0, v1), r4(0, v0), r4(v2, v3) if (v0 != 5) let v4 = (v0 + 1);
+      r2(v0) <-- for v0 in [0, 2];
    }
    pub struct Inst { p: Prog, pool: Option<ascent::rayon::ThreadPool> }
    pub fn make(pool: Option<usize>) -> Box<dyn Driver> {
@@ -102,12 +104,11 @@ pub mod s9 {
       relation r2(i64, i64, i64);
       r1(v3, v1) <-- r0(v0, v1) if ((*v1) <= 6) let v2 = ((*v0) + 0), let v3 = 4, r2((v2 + 1), v2, v4);
       r2(v1, ((*v3) + 1), v4) <-- for v0 in [3], r1(v1, v2), r2(v0, v3, v4) if ((*v1) < 2), if ((*v3) < 6);
-      r2(v0, v8, v9) <-- if let Some(v9) = Some(3), r1(v0, v1), r0(v1, v9) let v8 = ((*v0) + 1);
-      r1(v0, v1) <-- let v9 = 2, r0(v0, v1), r0(v1, v9);
-      r2(v2, (v0 + 1), v1) <-- if let Some(v0) = Some(1), r0((v0 + 1), v1), r0(3, v2), if ((*v2) <= 4), if (v0 < 6);
-      r2(v0, v0, v1) <-- r2(0, 2, 2), if let Some(v0) = Some(2), r1(v0, v0), for v1 in 0..2, r2(v0, v0, v1) if (v0 < 3);
-      r2(((*v0) + 1), v0, v0) <-- r0(0, 3), r1(v0, 2), if ((*v0) < 6);
-      r1(2, 0);
+      r1(v0, v2) <-- r1(v0, v1), r0(v1, v2), r1(v2, v3);
+      r1(v0, v1) <-- r0(v0, v1) if ((*v0) < 5), r0(v1, v2) if ((*v2) != (*v1));
+      r2(((*v3) + 1), v1, v0) <-- r0(v0, v1), r1(v2, v3), if ((*v3) < 6);
+      r1(v5, v2) <-- if let Some(v0) = Some(2), r1(v1, v2), r2(v1, v0, v3), r1(v4, v0), for v5 in [3];
+      r2(v0, v1, v1) <-- r0(2, 0), r0(v0, v1);
    }
    pub struct Inst { p: Prog, pool: Option<ascent::rayon::ThreadPool> }
    pub fn make(pool: Option<usize>) -> Box<dyn Driver> {
